@@ -46,7 +46,7 @@ def shrink_defs(df, hed_schema, columns=None):
 
         for column in columns:
             mask = df[column].str.contains('Def-expand/', case=False)
-            df[column][mask] = df[column][mask].apply(partial(_shrink_defs, hed_schema=hed_schema))
+            df.loc[mask, column] = df.loc[mask, column].apply(partial(_shrink_defs, hed_schema=hed_schema))
 
 
 def expand_defs(df, hed_schema, def_dict, columns=None):
